@@ -81,6 +81,11 @@ func signHandshake(c *Conn, sigType SignatureAlgorithm, prvKey crypto.PrivateKey
 	var signOpts crypto.SignerOpts = nil
 	switch sigType {
 	case ECC_SM3:
+		// ECC_SM3 签名只能由 SM2（椭圆曲线）密钥产生；RSA、Ed25519 等密钥
+		// 在 signOpts 为 nil 时会在 Sign 内解引用空指针。
+		if _, ok := key.Public().(*ecdsa.PublicKey); !ok {
+			return nil, fmt.Errorf("tlcp: client certificate private key of type %T can not produce an SM2 signature", prvKey)
+		}
 		if _, ok := prvKey.(*sm2.PrivateKey); ok {
 			// SM2密钥需要额外进行 H的Hash计算
 			signOpts = sm2.NewSM2SignerOption(true, nil)
